@@ -1,5 +1,6 @@
 """R18 ZONES (DESIGN.md §4 C15, converse of C16, arithmetic of C04/C13)."""
 from .zones import ZoneAnalysis
+from .facts import callee_name
 from .rules_layout import short
 
 
@@ -48,5 +49,7 @@ def rule_r18_leaves(ctx, prog):
     b = prog.find("maybe_nan::remove_nan_mut")
     out.append(run_zones(ctx, prog, b, lambda st, za: None, "true (any view)", floor=8))
     b = prog.find("histogram::bins::Bins::<A>::len")
-    out.append(run_zones(ctx, prog, b, lambda st, za: None, "true", floor=1))
+    # `n - 1` carries an overflow assert to discharge; `n.saturating_sub(1)` cannot panic and has none
+    sat = any(callee_name(t) == "saturating_sub" for _, t in b.calls()) and not any(b.term(x)["k"] == "assert" for x in b.live_blocks())
+    out.append(run_zones(ctx, prog, b, lambda st, za: None, "true", floor=0 if sat else 1))
     return out
